@@ -12,6 +12,7 @@ import (
 	"github.com/metrico/qryn/reader/utils/dbVersion"
 	"github.com/metrico/qryn/reader/utils/tables"
 	"io"
+	"runtime/debug"
 	"sort"
 	"strconv"
 	"strings"
@@ -556,6 +557,17 @@ func (q *QueryRangeService) Tail(ctx context.Context, query string) (model.IWatc
 	_ctx, cancel := context.WithCancel(ctx)
 
 	go func() {
+		// the planner chain runs on this goroutine once per tick: a fault in it must end the tail, not the process;
+		// the pipeline of the tick that faulted is drained so that its goroutines can finish
+		var out chan []shared.LogEntry
+		defer func() {
+			if err := recover(); err != nil {
+				logger.Error("panic:", err, " stack:", string(debug.Stack()))
+				if out != nil {
+					go drainEntries(out)
+				}
+			}
+		}()
 		ticker := time.NewTicker(time.Second)
 		defer cancel()
 		defer close(res.GetRes())
@@ -577,7 +589,7 @@ func (q *QueryRangeService) Tail(ctx context.Context, query string) (model.IWatc
 			default:
 			}
 
-			out, err := sqlQuery[0].Process(tables.PopulateTableNames(&shared.PlannerContext{
+			out, err = sqlQuery[0].Process(tables.PopulateTableNames(&shared.PlannerContext{
 				IsCluster:  conn.Config.ClusterName != "",
 				From:       from,
 				To:         time.Now(),
